@@ -433,7 +433,7 @@ func TestMutatedFileSets(t *testing.T) {
 // ---- listed conditions: exact limits and references ----------------------------------------------------------------
 
 func TestLimitsAndReferences(t *testing.T) {
-	ev.Rule(chkLimits, "rapid: a valid file set, then exactly one listed condition: one per-type file-size limit set to the file's compressed size (must accept) and size-1 (must reject) with all other limits huge, the file read from the primary CAS or (one in two) served by an alternate source after a failed primary read; the decompression limit (size x factor) set to exactly the decompressed size (accept) and one less (reject) using whitespace padding (in the same gzip member or, one time in three, in a second member of the file); each referenced file in turn re-hosted under a longer URI with maxCasUriLength set to that length (accept) and one less (reject); a proof / chunk reference removed where required or added where superfluous; one entry dropped from / added to an index, proof or delta array so that counts disagree; a suffix repeated across sections; oracle: must-reject cases are rejected, must-accept cases read back; non-trivial = every case")
+	ev.Rule(chkLimits, "rapid: a valid file set, then exactly one listed condition: one per-type file-size limit set to the file's compressed size (must accept) and size-1 (must reject) with all other limits huge, the file read from the primary CAS or (one in two) served by an alternate source after a failed primary read; the decompression limit (per-type limit x factor, factor drawn from 1, 2, 3, 4, 7) hit exactly by the decompressed size (accept) or exceeded by 1..factor bytes (reject) using whitespace padding (in the same gzip member or, one time in three, in a second member of the file); each referenced file in turn re-hosted under a longer URI with maxCasUriLength set to that length (accept) and one less (reject); a proof / chunk reference removed where required or added where superfluous; one entry dropped from / added to an index, proof or delta array so that counts disagree; a suffix repeated across sections; oracle: must-reject cases are rejected, must-accept cases read back; non-trivial = every case")
 	ev.Rapid(t, chkLimits, 600, 8000, func(t *rapid.T) {
 		fs := buildSet(t)
 		var present []string
@@ -511,23 +511,47 @@ func TestLimitsAndReferences(t *testing.T) {
 				role = "coreIndex"
 			}
 			viaAlt := rapid.Bool().Draw(t, "viaAlternateSource")
-			pad := 3000 + rapid.IntRange(0, 50).Draw(t, "pad")
-			fs.put(c, role, pad)
-			if rapid.IntRange(0, 2).Draw(t, "secondGzipMember") == 0 {
-				// the padding travels in a second gzip member: a gzip file is the concatenation of its members
-				b, _ := json.Marshal(fs.json[role])
-				c.Files[fs.addr[role]] = append(gz(b), gz(bytes.Repeat([]byte(" "), pad))...)
+			second := rapid.IntRange(0, 2).Draw(t, "secondGzipMember") == 0
+			// mk writes the file with pad bytes of white space behind the JSON text (in the same gzip member, or in a
+			// second member: a gzip file is the concatenation of its members) and returns (decompressed, compressed) sizes
+			mk := func(pad int) (uint, uint) {
+				fs.put(c, role, pad)
+				if second {
+					b, _ := json.Marshal(fs.json[role])
+					c.Files[fs.addr[role]] = append(gz(b), gz(bytes.Repeat([]byte(" "), pad))...)
+				}
+				raw, _ := gunzip(c.Files[fs.addr[role]])
+				return uint(len(raw)), uint(len(c.Files[fs.addr[role]]))
+			}
+			if second {
 				c.Note = "padding in a second gzip member; "
 			}
-			raw, _ := gunzip(c.Files[fs.addr[role]])
-			d := uint(len(raw))
-			c.L.Factor = 1
-			if rapid.Bool().Draw(t, "atLimit") {
-				setLimit(role, d)
-				c.MustAccept, c.Note = true, c.Note+fmt.Sprintf("%s limit x factor == decompressed size %d", role, d)
+			// the limit is (per-type size limit) x (decompression factor): the factor is drawn, the padding makes the
+			// decompressed size an exact multiple of it, and the file is then 0 (accept) or 1..factor (reject) bytes longer
+			f := uint(rapid.SampledFrom([]int{1, 1, 2, 3, 4, 7}).Draw(t, "factor"))
+			_, c0 := mk(3000)
+			pad := 3000 + rapid.IntRange(0, 50).Draw(t, "pad")
+			if need := int(f * (c0 + 64)); pad < need {
+				pad = need // the compressed file itself has to stay within the per-type limit
+			}
+			d, _ := mk(pad)
+			pad += int((f - d%f) % f)
+			d, _ = mk(pad)
+			limit := d / f
+			over := 0
+			if !rapid.Bool().Draw(t, "atLimit") {
+				over = rapid.IntRange(1, int(f)).Draw(t, "bytesOver")
+			}
+			d, cs := mk(pad + over)
+			if cs > limit {
+				t.Skip("compressed file exceeds the per-type limit")
+			}
+			c.L.Factor = f
+			setLimit(role, limit)
+			if over == 0 {
+				c.MustAccept, c.Note = true, c.Note+fmt.Sprintf("%s limit %d x factor %d == decompressed size %d", role, limit, f, d)
 			} else {
-				setLimit(role, d-1)
-				c.MustReject, c.Note = "a file decompressing to more than limit x factor", c.Note+fmt.Sprintf("%s limit x factor == decompressed size %d - 1", role, d)
+				c.MustReject, c.Note = "a file decompressing to more than limit x factor", c.Note+fmt.Sprintf("%s limit %d x factor %d == decompressed size %d - %d", role, limit, f, d, over)
 			}
 			if viaAlt {
 				c.FailRead, c.Alt = []string{fs.addr[role]}, true
